@@ -64,6 +64,7 @@ type Step struct {
 	Bind   int  `json:"bind,omitempty"`   // active open: 0 unbound, 1 wildcard + port, 2 address + port
 	RFam   int  `json:"rfam,omitempty"`   // udp-connect: peer 0 of the socket's family, 1 IPv4-mapped (IPv6 sockets), 2 plain address of the other family
 	Former bool `json:"former,omitempty"` // Ref selects a FORMER identity (of a closed or re-connected socket) instead of an open socket
+	Mapped bool `json:"mapped,omitempty"` // udp-bind of a dual-stack IPv6 socket: the address is given in IPv4-mapped form (::ffff:a.b.c.d, or ::ffff:0.0.0.0 for the IPv4 wildcard): the binding is an IPv4 one
 	Rst    int  `json:"rst,omitempty"`    // TCP inject on a 4-tuple without a connection: 1 the segment is a RST, 2 a RST|ACK (never answered, opens nothing)
 }
 
@@ -93,6 +94,7 @@ type msock struct {
 	rawID   stack.TransportEndpointID
 	peer    *rawpeer.Peer
 	ord     int
+	mapped4 bool // bound to ::ffff:0.0.0.0: while it has no address of its own it is an IPv4-only wildcard
 }
 
 func (m *msock) String() string {
@@ -307,10 +309,18 @@ func (r *seqRun) peerArg(st Step, v6 bool) (tcpip.Address, string) {
 }
 
 func (r *seqRun) opUDPBind(st Step) *evid.Failure {
-	addr, ok := r.localArg(st, st.V6)
+	mapped := st.Mapped && st.V6 && !st.V6Only
+	addr, ok := r.localArg(st, st.V6 && !mapped)
 	if !ok {
 		evid.Label("skip:family-mismatch")
 		return nil
+	}
+	if mapped {
+		v4 := addr
+		if v4 == "" {
+			v4 = "\x00\x00\x00\x00"
+		}
+		addr = tcpip.Address("\x00\x00\x00\x00\x00\x00\x00\x00\x00\x00\xff\xff") + v4
 	}
 	so, err := netsim.NewSock(r.w.s, udp.ProtocolNumber, netNum(st.V6))
 	if err != nil {
@@ -352,11 +362,17 @@ func (r *seqRun) opUDPBind(st Step) *evid.Failure {
 		so.EP.Close()
 		return nil
 	}
+	if mapped {
+		evid.Label("opened:udp-bound-v4-mapped")
+		if id.LA == "" {
+			id.Nets = net4 // ::ffff:0.0.0.0 is the IPv4 wildcard only
+		}
+	}
 	evid.Label("opened:udp-bound")
 	if rebind {
 		evid.Label("udp-bind:takes-over-former-identity")
 	}
-	return r.adopt(&msock{kind: kUDP, sock: so, v6: st.V6, v6only: st.V6 && st.V6Only}, id)
+	return r.adopt(&msock{kind: kUDP, sock: so, v6: st.V6, v6only: st.V6 && st.V6Only, mapped4: mapped && id.LA == ""}, id)
 }
 
 func (r *seqRun) opUDPConnect(st Step) *evid.Failure {
@@ -421,6 +437,9 @@ func (r *seqRun) opUDPConnect(st Step) *evid.Failure {
 	id, ie := identOf(transUDP, m.sock, m.v6, m.v6only)
 	if ie != nil {
 		return nil
+	}
+	if m.mapped4 && id.LA == "" && !id.connected() {
+		id.Nets = net4
 	}
 	return r.adopt(m, id)
 }
@@ -1329,6 +1348,12 @@ func genStep(rt *rapid.T, op int) Step {
 			}
 		}
 		st.Port = pick("port", len(lports))
+		if op == opUDPBind && st.V6 && !st.V6Only {
+			st.Mapped = pick("mapped", 3) == 0
+			if st.Mapped && st.Addr >= 0 {
+				st.Addr = rapid.SampledFrom([]int{0, 1, 2}).Draw(rt, "mapped_addr")
+			}
+		}
 		if op == opUDPBind && pick("takeover", 4) == 0 {
 			st.Ref, st.Former = pick("ref", 12), true
 		}
